@@ -112,6 +112,64 @@ theorem fetched_attest_valid (ans : Bytes → TiAns) (evs : List Event) (u : Unc
   · rename_i ti hpa
     exact ⟨ti, hpa, by simpa using hv⟩
 
+/-! ## token metadata that changes during the watcher's life
+
+"… only if, *at that moment*, … the attested metadata equals what the token contract itself reports": the token contracts'
+answers are an input of every page the fetch loop converts and of every re-observation request, and they may differ from one
+call to the next.  Over any history of pages — each with the answers of its own time — what is let through is judged by the
+answers of that page alone. -/
+
+/-- what the fetch side lets through over a history of pages, each with the token contracts' answers at that time -/
+def deliveredOver (hist : List ((Bytes → TiAns) × List Event)) : List (List Unconf) :=
+  hist.map fun p => handleUnconfirmed p.1 p.2
+
+/-- **Attestations are judged by the current answers.** Whatever the token contracts answered before and will answer later,
+an attestation let through by the `i`-th page of a history equals what its token contract reports in that page's call. -/
+theorem attest_judged_by_current_answers (hist : List ((Bytes → TiAns) × List Event)) (i : Nat) (ans : Bytes → TiAns)
+    (evs : List Event) (hi : hist[i]? = some (ans, evs)) :
+    (deliveredOver hist)[i]? = some (handleUnconfirmed ans evs) ∧
+      ∀ u ∈ handleUnconfirmed ans evs, isAttest u.msg = true → validateAttest ans u.msg = true := by
+  refine ⟨by simp [deliveredOver, List.getElem?_map, hi], fun u hu => ?_⟩
+  obtain ⟨e, _, hacc⟩ := List.mem_filterMap.1 hu
+  exact (acceptEv_some hacc).2.2.2
+
+/-- An attestation of values the token contract does not report (any more) is not let through, however often the same
+payload was let through before. -/
+theorem stale_attest_dropped (ans : Bytes → TiAns) (evs : List Event) (u : Unconf)
+    (ha : isAttest u.msg = true) (hv : validateAttest ans u.msg = false) : u ∉ handleUnconfirmed ans evs := by
+  intro hu
+  obtain ⟨e, _, hacc⟩ := List.mem_filterMap.1 hu
+  have := (acceptEv_some hacc).2.2.2 ha
+  rw [hv] at this
+  cases this
+
+private def mcTok : Bytes := List.replicate 31 0 ++ [9]
+private def mcAttest (sym dec : UInt8) : Bytes :=
+  [2] ++ mcTok ++ [0, 255, dec] ++ (List.replicate 31 0 ++ [sym]) ++ (List.replicate 31 0 ++ [66])
+private def mcMsg (seq : Nat) (sym dec : UInt8) : Msg := ⟨[7], 0, 0, seq, 0, mcAttest sym dec⟩
+private def mcTi (sym : UInt8) (dec : Nat) : Bytes → TiAns :=
+  fun _ => .results [.ok [.bytes (some [sym])], .ok [.bytes (some [66])], .ok [.u256 (some dec)]]
+private def mcEv (id : Nat) (tx : String) (m : Msg) : Event := ⟨id, "b", tx, 0, "gov", some m⟩
+private def mcUnconf (id : Nat) (tx : String) (m : Msg) : Unconf := ⟨mcEv id tx m, m⟩
+
+/-- **Remembering the first answer lets a stale attestation through and drops the current one** — the witness.  Token `…09`
+reports symbol `A`, 8 decimals; the token bridge's attestation of that is let through.  Then the contract reports symbol `C`,
+6 decimals.  The watcher that asks every time drops a new attestation of (`A`, 8) and lets the one of (`C`, 6) through; the
+watcher that remembers its first look-up does the opposite. -/
+theorem remembered_answers_go_stale :
+    handleUnconfirmed (mcTi 65 8) [mcEv 0 "t0" (mcMsg 1 65 8)] = [mcUnconf 0 "t0" (mcMsg 1 65 8)] ∧
+    handleUnconfirmed (mcTi 67 6) [mcEv 1 "t1" (mcMsg 2 65 8), mcEv 2 "t2" (mcMsg 3 67 6)] = [mcUnconf 2 "t2" (mcMsg 3 67 6)] ∧
+    (handleUnconfirmedRemembering [] (mcTi 65 8) [mcEv 0 "t0" (mcMsg 1 65 8)]).1 = [mcUnconf 0 "t0" (mcMsg 1 65 8)] ∧
+    (handleUnconfirmedRemembering (handleUnconfirmedRemembering [] (mcTi 65 8) [mcEv 0 "t0" (mcMsg 1 65 8)]).2 (mcTi 67 6)
+        [mcEv 1 "t1" (mcMsg 2 65 8), mcEv 2 "t2" (mcMsg 3 67 6)]).1 = [mcUnconf 1 "t1" (mcMsg 2 65 8)] ∧
+    validateAttest (mcTi 67 6) (mcMsg 2 65 8) = false ∧ validateAttest (mcTi 67 6) (mcMsg 3 67 6) = true := by
+  decide
+
+-- a two-page history in which the contract's answers change: hypotheses of the theorems above on the witness
+example : [(mcTi 65 8, [mcEv 0 "t0" (mcMsg 1 65 8)]), (mcTi 67 6, [mcEv 1 "t1" (mcMsg 2 65 8), mcEv 2 "t2" (mcMsg 3 67 6)])][1]?
+    = some (mcTi 67 6, [mcEv 1 "t1" (mcMsg 2 65 8), mcEv 2 "t2" (mcMsg 3 67 6)]) := rfl
+example : isAttest (mcMsg 2 65 8) = true ∧ validateAttest (mcTi 67 6) (mcMsg 2 65 8) = false := by decide
+
 /-- Events of an orphaned block: once confirmed they are neither handed on nor kept. -/
 theorem orphan_dropped {cfg : Cfg} {o : Oracle} {height now : Int} {pending pend : List PBlock}
     {conf : List (Unconf × Header)} (hp : process cfg o height now pending = some (pend, conf))
@@ -409,6 +467,22 @@ example : reobserve exCfg (exNode "gov" 0) 3280000 255 32 "t1" = [toPub "t1" exM
 -- a look-alike event of another contract in the same transaction, or a block seconds old, is not forwarded:
 example : reobserve exCfg (exNode "other" 0) 3280000 255 32 "t1" = [] := by decide
 example : reobserve exCfg (exNode "gov" 3000000) 3280000 255 32 "t1" = [] := by decide
+
+/-- The same on the re-observation path: a request hands an attestation to the signer only if it equals what the token
+contract reports in this very request (`node.ti`), whatever earlier requests or pages were answered. -/
+theorem reobserve_attest_current (cfg : Cfg) (node : ReobsNode) (now : Int) (chain hashLen : Nat) (tx : Hash) (p : Pub)
+    (hp : p ∈ reobserve cfg node now chain hashLen tx) :
+    ∃ m h, p = toPub tx m h ∧ (isAttest m = true → validateAttest node.ti m = true) := by
+  obtain ⟨_, _, _, m, h, _, _, _, _, _, _, _, _, _, _, _, _, _, _, _, hatt, rfl⟩ :=
+    reobserve_forwarded cfg node now chain hashLen tx p hp
+  exact ⟨m, h, rfl, hatt⟩
+
+private def mcNode (ti : Bytes → TiAns) : ReobsNode :=
+  { status := some (.confirmed "b"), txEvents := some [mcEv 0 "t0" (mcMsg 1 65 8)],
+    hdr := fun _ => some ⟨100, 0⟩, main := fun _ => some true, height := some 101, ti := ti }
+example : reobserve ⟨false, [7], "gov"⟩ (mcNode (mcTi 65 8)) 0 255 32 "t0" = [toPub "t0" (mcMsg 1 65 8) ⟨100, 0⟩] := by decide
+-- the same transaction re-observed after the contract has begun to report something else: nothing is handed over
+example : reobserve ⟨false, [7], "gov"⟩ (mcNode (mcTi 67 6)) 0 255 32 "t0" = [] := by decide
 
 /-! ## the constructor: the floor in force on a real node -/
 
